@@ -27,6 +27,9 @@ META = {
                   "model predicting line, caret column/width and window from the reported offsets on every planted failure).",
 }
 
+CFG_NAMES = {"d": "default (debug on)", "x": "debug off", "p": "pass-through custom formatter", "n": "failing custom formatter",
+             "a": "custom auto-escape format", "k": "keep_trailing_newline", "t": "trim_blocks+lstrip_blocks",
+             "c": "custom delimiters", "s": "strict undefined", "m": "semi-strict undefined", "h": "chainable undefined"}
 V_N = {0: 0, 1: 1, 2: 2, 3: 7, 4: 300, 5: None, 6: 70000}   # 5: fill up to exactly 65535 lines, 6: beyond the quantifier
 
 
@@ -168,9 +171,9 @@ def evaluate(r, text):
         f = case.split(" ")
         streams[f[0]] += 1
         if f[0] == "err":
-            cid, cls, vi, hi = f[1], f[2], int(f[3]), int(f[4])
-            classes[cid] = cls
-            err_recs.setdefault(cid, {})[(vi, hi)] = (case, parse_err_record(res))
+            cid, cls, cfg, vi, hi = f[1], f[2], f[3], int(f[4]), int(f[5])
+            classes[(cid, cfg)] = cls
+            err_recs.setdefault((cid, cfg), {})[(vi, hi)] = (case, parse_err_record(res))
         elif f[0] == "lex":
             do_lex(r, q, pending, case, f[1], f[2], res)
         elif f[0] == "ast":
@@ -233,14 +236,16 @@ def expected_shift(b, rec, vi):
 
 def do_err(r, q, pending, err_recs, classes):
     fixed_total = fixed_fail = 0
-    for cid, variants in err_recs.items():
-        cls = classes[cid]
+    print_fail = collections.Counter()
+    for (cid, cfg), variants in err_recs.items():
+        cls = classes[(cid, cfg)]
         base = variants.get((0, 0))
         if base is None:
-            r.broken.append(f"case {cid} has no unshifted baseline")
+            r.broken.append(f"case {cid} (configuration {cfg}) has no unshifted baseline")
             continue
         bcase, brec = base
-        if cls != "planted":
+        counted = cls != "planted" and cfg == "d" and not cid.startswith("print_none_")
+        if counted:
             fixed_total += 1
         if brec["how"] == "noerror":
             for (vi, hi), (case, rec) in variants.items():
@@ -250,12 +255,15 @@ def do_err(r, q, pending, err_recs, classes):
                                      + "; ".join(e.brief() for e in rec["errors"]), "shift-creates-failure")
             r.hist["err_outcome"]["valid (planting produced no error)"] += 1
             continue
-        if cls != "planted":
+        if counted:
             fixed_fail += 1
+        if cid.startswith("print_") and cfg in ("p", "n", "a"):
+            print_fail[cfg] += 1
         for (vi, hi), (case, rec) in variants.items():
             in_q = vi != 6
             r.count(case, True)
             r.hist["err_class"][cls] += 1
+            r.hist["err_config"][CFG_NAMES.get(cfg, cfg)] += 1
             r.hist["v_shift"][str(V_N[vi]) if V_N[vi] is not None else "to 65535 lines"] += 1
             r.hist["h_shift"][["0", "1 col", "3 cols multi-byte", "65540 cols"][hi]] += 1
             if rec["panic"] is not None:
@@ -313,10 +321,13 @@ def do_err(r, q, pending, err_recs, classes):
                     wins = [e.line]
                 if not offs and not wins:
                     continue
-                key = q.add(0, spec, offs, serrs, wins)
+                key = q.add(1 if cfg == "k" else 0, spec, offs, serrs, wins)
                 pending.append(lambda key=key, e=e, case=case, d=d: err_model_check(r, q, key, e, case, d))
-            if (vi, hi) in ((0, 0), (5, 3)) and len(r.samples) < 10 and cid in ("include_inner_err", "syn_unexpected_char_mb", "macro_imported", "plant_1_7_tag"):
+            if (vi, hi) in ((0, 0), (5, 3)) and len(r.samples) < 10 and cfg in ("d", "n") and cid in ("include_inner_err", "syn_unexpected_char_mb", "print_none_macro_imported", "plant_1_7_tag"):
                 r.sample({"case": case, "errors": [e.brief() for e in rec["errors"]]})
+    r.extra["failing_print_cases_by_formatter_config"] = dict(print_fail)
+    if err_recs and (print_fail["n"] < 40 or print_fail["p"] < 20 or print_fail["a"] < 40):
+        r.broken.append(f"too few failing prints through the custom formatter / custom auto-escape paths: {dict(print_fail)}")
     r.extra["fixed_site_cases"] = fixed_total
     r.extra["fixed_site_cases_failing"] = fixed_fail
     if fixed_total and fixed_fail * 10 < fixed_total * 9:
@@ -338,7 +349,7 @@ def err_model_check(r, q, key, e, case, d):
             s = se.get(e.rs)
             if s is not None and s[5] == e.re and s[2] == e.rs:
                 cands.append(model_caret(s))
-            if e.caret not in ("p",) and e.caret not in cands:
+            if e.tsok != "n" and e.caret not in ("p",) and e.caret not in cands:   # no debug info: nothing is rendered
                 r.model_disagreement(case, f"error #{d} caret {e.caret} range {e.rs}..{e.re}", f"model: {cands}")
     if e.win not in ("n", "p"):
         w = wi.get(e.line)
